@@ -48,9 +48,6 @@ def check_model(case, stats):
     if not gh.names_existing_path(r.text):
         scanner = gh.TokenScanner(r.text)
         res3 = gh.parse(scanner, doc["default"])
-        res4 = gh.parse(scanner, doc["default"])   # the drained scanner once more: an empty source, not an error of another kind
-        if res4 != ("ok", {"comments": []}):
-            raise Violation(case, "parsing an already drained TokenScanner object gives %r, expected the empty document" % (res4,))
         if res3[0] != "ok" or res3[1] != r.ast:
             raise Violation(case, "given a TokenScanner object instead of the text the document %s\n--- text:\n%s" % (
                 "is rejected: %r" % (res3[1][:2],) if res3[0] != "ok" else "gives another AST, " + diff_text(res3[1], r.ast, "parser", "model"), r.text))
